@@ -14,6 +14,7 @@ type ContextScope struct {
 	errorsMU sync.Mutex
 	errors   []error
 	done     chan struct{}
+	stopOnce sync.Once
 }
 
 // New create new instance of context scope
@@ -52,9 +53,9 @@ func (s *ContextScope) Kill() {
 
 // Stop stop the scope context without error
 func (s *ContextScope) Stop() {
-	if !s.IsDone() {
+	s.stopOnce.Do(func() {
 		close(s.done)
-	}
+	})
 }
 
 // Err return cumulative error if the scope context contains any error
